@@ -338,7 +338,8 @@ Proof.
     + destruct (N.eqb padding 48) eqn:Ep.
       * apply N.eqb_eq in Ep. subst padding. rewrite app_nil_r, <- !app_assoc. reflexivity.
       * rewrite app_nil_r, <- !app_assoc. reflexivity.
-    + rewrite !repeat_neg by lia.
+    + rewrite (repeat_neg _ padding (width - fw)) by lia.
+      rewrite (repeat_neg _ 48%N (width - fw)) by lia.
       destruct (N.eqb padding 48); rewrite ?app_nil_r, <- ?app_assoc; reflexivity.
 Qed.
 
